@@ -65,8 +65,10 @@ Definition ex_shards : list shard :=
                                        (ex_repo 12 9 [HEAD], [ {| d_id := 120; d_branches := [HEAD] |} ]) ] |};
     {| sh_known := true; sh_parts := [ (ex_repo 10 7 [HEAD; 2%N], [ {| d_id := 102; d_branches := [HEAD; 2%N] |} ]) ] |} ].
 
-(** BranchesRepos{HEAD: 7, 8}: shard 2 is searched unrewritten? no - repo 12 is not wanted, so nothing is rewritten
-    and all three shards are kept; with ids 7 only, shard 2 is dropped and the child becomes Branch{HEAD} *)
+(** BranchesRepos{HEAD: [7]}: the compound shard (repositories 8, 9) is dropped, both shards of repository 7 are
+    kept and the child becomes Branch{HEAD, exact} (HEAD is their first branch); with ids [7; 8] the compound
+    shard is kept but also holds repository 9, so nothing may be rewritten and all three shards are searched
+    with the original query. *)
 Example C18_nonvacuous_select :
   (let '(sel, cs') := select ex_shards [QBranchesRepos [(HEAD, [7%N])]; QOther (fun _ d => negb (N.eqb (d_id d) 102))] in
    (length sel, match cs' with QBranchExact b :: _ => Some b | _ => None end)) = (2, Some HEAD) /\
